@@ -154,7 +154,7 @@ def failing_arm(fn, ifn, call, mode):
 
 
 def errd_read(ctx, P, fns):
-    r = ctx.rule("ERRD.read", "the result of every checked-read primitive (s3file_get, _get_1d/_2d/_3d, _parse_header, _verify_chksum) is tested and the failing edge leaves the function", floor=60)
+    r = ctx.rule("ERRD.read", "the result of every checked-read primitive (s3file_get, _get_1d/_2d/_3d, _parse_header, _verify_chksum) is tested and the failing edge leaves the function", floor=40)
     for f in fns:
         for c in f.calls():
             cal = f.nodes[c].get("callee")
@@ -608,7 +608,7 @@ def _trusted(name):
 
 
 def taint_rule(ctx, P, fns):
-    r = ctx.rule("TAINT.lower", "a signed count read from the file has a lower bound (ordering test against a constant or equality with a validated value, failing edge leaves) before it is used as an allocation size, loop bound, cursor advance, element count or index", floor=25)
+    r = ctx.rule("TAINT.lower", "a signed count read from the file has a lower bound (ordering test against a constant or equality with a validated value, failing edge leaves) before it is used as an allocation size, loop bound, cursor advance, element count or index", floor=18)
     for f in fns:
         ts = tainted_scalars(f)
         if not ts:
@@ -872,7 +872,7 @@ CURSOR_FUNCS = {
 
 
 def cursor_rule(ctx, P, fns):
-    r = ctx.rule("CURSOR", "outside s3file.c the raw cursor of an s3file is written only in the listed functions; every advance by a file-derived amount is paired with a comparison of the cursor against the end of the buffer (before, or after and before any dereference) whose failing edge leaves", floor=8)
+    r = ctx.rule("CURSOR", "outside s3file.c the raw cursor of an s3file is written only in the listed functions; every advance by a file-derived amount is paired with a comparison of the cursor against the end of the buffer (before, or after and before any dereference) whose failing edge leaves", floor=6)
     for f in P.repo_functions():
         if unit_of(f) == "s3file.c":
             continue
@@ -1174,7 +1174,7 @@ DESTRUCTORS = ("bin_mdef_free", "tmat_free", "gauden_free", "senone_free", "ms_m
 
 
 def partial_rule(ctx, P):
-    r = ctx.rule("UNWIND.partial", "the release functions the loaders call on their error paths accept a partly built (zeroed) object: every dereference through a pointer field of the object is guarded by a test of that field or runs in a loop bounded by a count field of the same object; a field that selects how another field is released is set before the call that fills that other field", floor=8)
+    r = ctx.rule("UNWIND.partial", "the release functions the loaders call on their error paths accept a partly built (zeroed) object: every dereference through a pointer field of the object is guarded by a test of that field or runs in a loop bounded by a count field of the same object; a field that selects how another field is released is set before the call that fills that other field", floor=5)
     for name in DESTRUCTORS:
         f = P.fn(name)
         ctx.touch(f)
